@@ -35,6 +35,16 @@ class CallbackRaised(Exception):
     """An uninterpreted callback chose to raise (modelled as a non-deterministic fork)."""
 
 
+def engine_fault(e):
+    """True if exception `e` originates in the verifier (pyvc / z3 / sympy), not in the code under contract."""
+    import traceback
+    tb = traceback.extract_tb(e.__traceback__)
+    if not tb:
+        return True
+    inner = tb[-1].filename
+    return not inner.startswith(loader.SRC)
+
+
 class Undefined:
     """Value of a name that is unbound in the real code at this point (NameError on use)."""
 
